@@ -254,6 +254,18 @@ func c05Bodies(c *enumx.Ctx) {
 			}
 		}
 	}
+	// every byte value in a value, in a key, between fields and right after the header
+	for b := 0; b < 256; b++ {
+		bs := string([]byte{byte(b)})
+		for _, body := range []string{"a=" + bs + " b=c", "a" + bs + "=b c=d", "a=b" + bs + "c=d", bs + "a=b", "a=\"" + bs + "\" b=c", "msg='a=" + bs + " b=c'", "saddr=" + bs + "200", "proctitle=" + bs, "argc=1 a0=" + bs} {
+			for _, t := range typeClasses {
+				if !c.Mine() {
+					continue
+				}
+				parseBody(c, t, "audit(1700000000.123:42): "+body)
+			}
+		}
+	}
 	c.Sample("Parse(1309, \"audit(1700000000.123:42): argc=2 a0=4\")")
 }
 
